@@ -75,4 +75,12 @@ theorem C01_compose (B : Bnds) (n0 N : Nat) (defs : List Def) (steps : List Step
     NLsat defs roots x ↔ ∃ y, Delivered N defs steps roots Dom x y :=
   compose B n0 N defs steps roots Dom hDom hperm hwf hN hroots hfin hcov hchain hok hDomOK x hDomE
 
+
+/-- the per-run validator (`ctxGaps`, `wfB`, executed by `drv_c01` on the contexts recorded from the real converter)
+is sound: no gap ⇒ `CtxCovers`; `wfB` ⇒ creation order -/
+theorem C01_validator_ctxcovers_sound (B : Bnds) (defs : List Def) (roots : List Root)
+    (h : ctxGaps B defs roots = []) : CtxCovers B defs roots := ctxGaps_sound B defs roots h
+
+theorem C01_validator_wf_sound (m : Nat) (defs : List Def) (h : wfB m defs = true) : WF m defs := wfB_sound m defs h
+
 end MpVerif.C01
